@@ -29,6 +29,9 @@ structure SegRef where
   minTs : Option Int
   maxTs : Option Int
   recs : List Rec       -- what `Decode` returns for the segment
+  lastModified : Option Int   -- `LastModified` of the `.kfs` object (upload time, ms); `none` = zero time.
+                              -- No function below reads it: record timestamps are producer-supplied and
+                              -- are not bounded by the upload time, so it must not be used to skip a segment.
 deriving Repr, DecidableEq
 
 structure Query where
@@ -183,6 +186,7 @@ structure Obj where
   base : Int
   complete : Bool
   recs : List (Int × Int)
+  lastModified : Option Int
 deriving Repr, DecidableEq
 
 /-- the `sort.Slice` order: topic, partition, base offset -/
@@ -210,7 +214,8 @@ def buildRefs (timeIndex : Bool) : List Obj → Nat → List SegRef
         else footerMax
       | [] => footerMax
     { topic := o.topic, partition := o.partition, minOffset := some o.base, maxOffset := maxOff,
-      minTs := footer.map (·.1), maxTs := footer.map (·.2.1), recs := recs } :: buildRefs timeIndex rest (i + 1)
+      minTs := footer.map (·.1), maxTs := footer.map (·.2.1), recs := recs,
+      lastModified := o.lastModified } :: buildRefs timeIndex rest (i + 1)
 
 /-- `ListCompleted` -/
 def listCompleted (objs : List Obj) (timeIndex : Bool) : List SegRef :=
